@@ -87,6 +87,10 @@ pub enum CookieSpec {
     FromQuery(usize),
     /// a server cookie nobody issued
     Forged,
+    /// a server cookie computed the way erbium computes them, but under a key an outsider can
+    /// guess (all zero octets: the value of an unset key); `form` selects how the two
+    /// addresses are fed to the MAC (IPv4 octets or IPv4-mapped IPv6 octets, each side)
+    ForgedUnderGuessedKey { key: Vec<u8>, form: u8 },
     /// client cookie of the wrong length (hostile)
     Malformed(usize),
 }
@@ -838,8 +842,9 @@ pub fn generate_flood(seed: u64, cookie: bool) -> PlanB {
         r.fill(&mut cc);
         let ed = |cookie: CookieSpec, cc: [u8; 8]| Some(EdnsSpec { size: 1232, do_bit: false, cookie, client_cookie: cc, nsid: false, extra: vec![] });
         p.queries.push(mk(&mut r, 1000, c, next_port(), lan, "learn.example".into(), T_A, ed(CookieSpec::ClientOnly, cc)));
-        let variant = r.below(8);
-        p.cookie_case = ["valid", "other_client_address", "other_server_address", "other_client_cookie", "forged", "two_key_rotations_old", "valid_prefix_only", "valid_plus_extra_octets"][variant as usize].to_string();
+        let variant = r.below(9);
+        p.cookie_case = ["valid", "other_client_address", "other_server_address", "other_client_cookie", "forged", "two_key_rotations_old", "valid_prefix_only", "valid_plus_extra_octets", "forged_under_all_zero_key"][variant as usize].to_string();
+        let guessed_form = r.below(4) as u8;
         match variant {
             6 => p.cookie_mangle = Some((*r.pick(&[8usize, 16, 24, 31]), vec![])),
             7 => p.cookie_mangle = Some((32, r.bytes(*r.clone().pick(&[1usize, 8])))),
@@ -864,7 +869,11 @@ pub fn generate_flood(seed: u64, cookie: bool) -> PlanB {
                 }
                 _ => (c, lan, cc),
             };
-            let spec = if variant == 4 { CookieSpec::Forged } else { CookieSpec::FromQuery(0) };
+            let spec = match variant {
+                4 => CookieSpec::Forged,
+                8 => CookieSpec::ForgedUnderGuessedKey { key: vec![0; 8], form: guessed_form },
+                _ => CookieSpec::FromQuery(0),
+            };
             let mut q = mk(&mut r, t + i as u64 / 50, src, next_port(), dst, format!("any{}.example", i), T_ANY, ed(spec, cookie_cc));
             q.flood = true;
             q.exempt = variant == 0;
